@@ -447,6 +447,10 @@ Definition tables_ok : bool :=
   aasm_route_uses_project_manifest && avbc_route_falls_back_to_project_manifest &&
   (* manifest discovery and embedding: `<file name>.toml` for any entry file, then aelys.toml; compile embeds whatever it found *)
   per_file_manifest_is_filename_dot_toml && directory_manifest_is_aelys_toml && compile_embeds_manifest_whenever_present &&
+  (* round-4 repairs: std capability bits govern native modules, the policy lookup tries the dotted key, an unreadable manifest is an error *)
+  native_caps_consult_std_bits && policy_lookup_tries_dotted_path && unparsable_manifest_is_an_error &&
+  (* the import spelling `needs m.symbol` reaches load_native_module with the path of the module m (route_decision takes the MODULE path) *)
+  symbol_import_keeps_module_path &&
   (* every native of std.fs / std.net re-checks its capability per call *)
   gated_natives_percall "fs" && gated_natives_percall "net" &&
   (* no native outside the gated modules touches files / processes / sockets unchecked *)
